@@ -14,6 +14,9 @@ pub struct Script {
     pub calls: usize,
     pub last_method: u8,
     pub last_client: Option<ClientId>,
+    /// sender half of the confirmation channel handed out by the last acquire_lock (the harness decides later
+    /// whether the lock is granted - send - or the request is cancelled - drop)
+    pub lock_tx: Option<oneshot::Sender<()>>,
 }
 #[derive(Clone)]
 pub struct CloneableWbApi {
@@ -60,7 +63,7 @@ pub fn error_of(n: u8) -> WorterbuchError {
 
 impl CloneableWbApi {
     pub fn scripted(fail: u8) -> (CloneableWbApi, *mut Script) {
-        let script = Box::into_raw(Box::new(Script { fail, calls: 0, last_method: 0, last_client: None }));
+        let script = Box::into_raw(Box::new(Script { fail, calls: 0, last_method: 0, last_client: None, lock_tx: None }));
         (CloneableWbApi { config: Config { auth_token_key: None, channel_buffer_size: 4 }, script }, script)
     }
     fn answer<T>(&self, method: u8, client: Option<ClientId>, ok: T) -> WorterbuchResult<T> {
@@ -98,7 +101,7 @@ impl CloneableWbApi {
     }
     pub fn acquire_lock(&self, _key: Key, client_id: ClientId) -> crate::R<WorterbuchResult<oneshot::Receiver<()>>> {
         let (tx, rx) = oneshot::channel();
-        core::mem::forget(tx);
+        unsafe { core::ptr::write(&mut (*self.script).lock_tx, Some(tx)) };
         crate::ret(self.answer(M_ACQUIRE, Some(client_id), rx))
     }
     pub fn release_lock(&self, _key: Key, client_id: ClientId) -> crate::R<WorterbuchResult<()>> {
